@@ -179,7 +179,7 @@ class Model(SOCModel):
                 elif isinstance(constr, CvxConstr):
                     if constr.xtype == 'P':
                         affine_out = constr.affine_out * (1/constr.multiplier)
-                        aux_var = self.dvar(constr.affine_in.shape)
+                        aux_var = self.dvar(constr.affine_in.shape, aux=True)
                         self.aux_constr.append(aux_var.sum() >= affine_out)
                         ns = constr.affine_in.size
                         affine_in = constr.affine_in.reshape(ns)
@@ -207,7 +207,7 @@ class Model(SOCModel):
                         affine_out = constr.affine_out * (1/constr.multiplier)
                         exprs_list = rso_broadcast(constr.affine_in, affine_out)
                         ns = len(exprs_list)
-                        aux_var = self.dvar((ns, 2))
+                        aux_var = self.dvar((ns, 2), aux=True)
                         self.aux_constr.append(aux_var.sum(axis=1) <= 1)
                         for s, exprs in enumerate(exprs_list):
                             exp_cone_constr = ExpConstr(constr.model,
@@ -223,10 +223,10 @@ class Model(SOCModel):
                         affine_out = constr.affine_out * (1/constr.multiplier)
                         order = constr.params
                         dim_in = affine_in.size
-                        aux_xvar = self.dvar(dim_in).to_affine()
-                        aux_zvar = self.dvar(dim_in).to_affine()
-                        aux_rvar = self.dvar(dim_in).to_affine()
-                        aux_yvar = self.dvar().to_affine()
+                        aux_xvar = self.dvar(dim_in, aux=True).to_affine()
+                        aux_zvar = self.dvar(dim_in, aux=True).to_affine()
+                        aux_rvar = self.dvar(dim_in, aux=True).to_affine()
+                        aux_yvar = self.dvar(aux=True).to_affine()
                         self.aux_constr.append(affine_in <= aux_xvar)
                         self.aux_constr.append(-affine_in <= aux_xvar)
                         self.aux_constr.append(aux_zvar.sum() <= aux_yvar)
